@@ -62,11 +62,28 @@ def check(tier, seed, replay=None):
         for i, c in enumerate(cases):
             if i % 3 == seed % 3 and len(c["rows"]) >= 2:
                 c["rows"][1]["name"] = ""
+            elif len(c["rows"]) >= 2 and (i % 5 == (seed + 2) % 5 or
+                                          (i % 2 == 0 and {c["rows"][0]["cmp"], c["rows"][1]["cmp"]} == {"le", "ge"})):
+                # an unnamed row BEFORE the named ones: the k-th named row is not the k-th row (every second model whose
+                # first two rows are inequalities of opposite direction, and a fifth of the rest)
+                c["rows"][0]["name"] = ""
             elif i % 5 == seed % 5 and len(c["rows"]) >= 2:
                 # names of the shape the compiler gives the second, third ... row of one label: they are
                 # named rows like any other
                 for k, r in enumerate(c["rows"]):
                     r["name"] = "cap" if k == 0 else f"cap__{k + 1}"
+    if not replay:
+        # hand-written: unnamed inequality rows before / between binding named rows of the opposite direction
+        NNv = lambda n: {"name": n, "kind": "nnreal", "lo": solve.B(0, 0), "hi": solve.B(1, 0)}
+        R_ = lambda a, cmp, b, name: {"a": a, "cmp": cmp, "b": b, "name": name}
+        cases += [
+            {"id": "h_unnamed_first_min", "sense": "min", "obj": [1, 2], "off": 0, "den": 1, "vars": [NNv("v0"), NNv("v1")],
+             "rows": [R_([1, 0], "le", 3, ""), R_([1, 1], "ge", 5, "demand")]},
+            {"id": "h_unnamed_first_max", "sense": "max", "obj": [3, 1], "off": 0, "den": 1, "vars": [NNv("v0"), NNv("v1")],
+             "rows": [R_([1, 1], "ge", 1, ""), R_([1, 0], "le", 3, "cap"), R_([0, 1], "le", 2, "lim")]},
+            {"id": "h_unnamed_between", "sense": "min", "obj": [2, 3], "off": 0, "den": 1, "vars": [NNv("v0"), NNv("v1")],
+             "rows": [R_([1, 0], "ge", 1, "a"), R_([1, 1], "le", 9, ""), R_([0, 1], "ge", 2, "b")]},
+        ]
     for c in cases:
         t = lp_text(c)
         if t:
